@@ -691,14 +691,24 @@ type Sequence struct {
 // LoadSequences reads the behaviours of one step from sequences.ndjson.
 func LoadSequences(t testing.TB, step string) []*Sequence {
 	var out []*Sequence
+	letters := map[string]kit.V{}
+	for _, v := range kit.LoadCases(t, "alphabet.ndjson") {
+		if v.Get("step").Str() == step {
+			letters[v.Get("name").Str()] = v
+		}
+	}
 	for _, v := range kit.LoadCases(t, "sequences.ndjson") {
 		if v.Get("step").Str() != step {
 			continue
 		}
 		q := &Sequence{Step: step, Kind: v.Get("kind").Str(), Leader: v.Get("leader").Str(), Raw: v,
 			Excl: Excl{Who: v.Get("excl").Get("who").Int(), Kind: v.Get("excl").Get("kind").Str(), When: v.Get("excl").Get("when").Str()}}
-		for _, m := range v.Get("msgs").List() {
-			q.Names = append(q.Names, m.Get("name").Str())
+		for _, name := range v.Get("names").Strs() {
+			m, ok := letters[name]
+			if !ok {
+				t.Fatalf("verifadm: step %s: message %q is not in the alphabet", step, name)
+			}
+			q.Names = append(q.Names, name)
 			q.Msgs = append(q.Msgs, caseFrom(t, "", m.Get("c"), "", m))
 		}
 		e := v.Get("expected")
@@ -773,9 +783,17 @@ func RunSequences(t *testing.T, rep *kit.Report, step string, drive func(q *Sequ
 		rep.Diverge(fmt.Sprintf("admission-seq:%s:%s", step, kit.Hash(q.Names)),
 			fmt.Sprintf("%s: after receiving the messages %v (exclusion %+v, leader %s) the step kept %s, the specification keeps %s%s",
 				step, q.Names, q.Excl, q.Leader, mustJSON(have), mustJSON(want), noteSuffix(note)),
-			map[string]interface{}{"step": step, "messages": q.Raw.Get("msgs").X}, want, have)
+			map[string]interface{}{"step": step, "messages": q.Names, "alphabet": letterCases(q)}, want, have)
 	}
 	rep.Count("sequences:"+step, n)
+}
+
+func letterCases(q *Sequence) map[string]interface{} {
+	out := map[string]interface{}{}
+	for i, n := range q.Names {
+		out[n] = q.Msgs[i].Raw.Get("c").X
+	}
+	return out
 }
 
 func mustJSON(x interface{}) string { return kit.V{X: x}.JSON() }
